@@ -41,6 +41,11 @@ def suite(cwd):
     return sorted(set(bad))
 
 meta = json.load(open(f"{outd}/meta.json"))
+# the worktree must carry exactly the delivered patch (agents sharing a repository can disturb each
+# other's worktrees through `git stash`)
+sh(["git", "checkout", "--", "."], wt)
+ap0 = sh(["git", "apply", f"{outd}/patch.diff"], wt)
+assert ap0.returncode == 0, "delivered patch.diff does not apply to a clean worktree: " + ap0.stdout
 res = {"property": pid, "name": name}
 demos = [os.path.join(dp, f) for dp, _, fs in os.walk(wt) for f in fs if f.startswith("zz_seed_")]
 assert demos, "no demo test file in the worktree"
@@ -67,14 +72,18 @@ r = sh(["go", "test", "-vet=off", "-count=1", "-run", f"^{test}$", pkg], wt)
 res["demo_fails_with_change"] = r.returncode != 0
 res["demo_output_with_change"] = r.stdout[-1500:]
 # 3. demo without the change
-sh(["git", "stash", "--", "."], wt)  # stashes tracked modifications only; the demo file is untracked
+# (no `git stash`: the stash is shared by all worktrees of a repository, and seeding agents may be
+# running in other worktrees) — save the change as a patch, check the files out, re-apply
+saved = sh(["git", "diff", "--", ".", ":(exclude)*zz_seed_*"], wt).stdout
+open("/var/tmp/seed-saved.diff", "w").write(saved)
+sh(["git", "checkout", "--", "."], wt)
 try:
     r = sh(["go", "test", "-vet=off", "-count=1", "-run", f"^{test}$", pkg], wt)
     res["demo_passes_without_change"] = r.returncode == 0
     if r.returncode != 0:
         res["demo_output_without_change"] = r.stdout[-1500:]
 finally:
-    sh(["git", "stash", "pop"], wt)
+    sh(["git", "apply", "/var/tmp/seed-saved.diff"], wt)
 res["confirmed"] = bool(res["builds"] and not res["suite_failures_with_change"] and res["demo_fails_with_change"] and res["demo_passes_without_change"])
 
 # 4. run the checks against it in /repo
